@@ -2,6 +2,7 @@ import TarsModel.Proofs.IdlTotal
 import TarsModel.Proofs.IdlAccept
 import TarsModel.Proofs.IdlLex
 import TarsModel.Proofs.IdlSchema
+import TarsModel.Proofs.IdlSem
 import TarsModel.Generated.Consts
 
 /-!
@@ -94,6 +95,18 @@ theorem C16_asFound_other_loops_diagnose :
     tool .asFound (asc "module a { struct S { 0 require vector<") = .diag "expert-type" := by
   refine ⟨?_, ?_, ?_, ?_, ?_⟩ <;> decide +kernel
 
+/-- **Sibling loops.**  Every other loop and recursion of the parser — struct members, interface
+functions, function arguments, `key[...]` members, nested types — consumes a token per iteration or
+ends with a diagnostic, in the code as found (these functions do not depend on the variant): the
+flaw of D5 is confined to `parseEnum`.  (The lexer loops are total by `C16_lexer_progress`.) -/
+theorem C16_sibling_loops_terminate :
+    (∀ acc s, structLoop acc s ≠ .hang) ∧ (∀ acc s, funLoop acc s ≠ .hang) ∧
+    (∀ acc s, argLoop acc s ≠ .hang) ∧ (∀ acc s, keyLoop acc s ≠ .hang) ∧
+    (∀ s, parseType s ≠ .hang) ∧ (∀ m s, parseConst m s ≠ .hang) :=
+  ⟨fun acc s => (structLoop_sat acc s).1, fun acc s => (funLoop_sat acc s).1,
+   fun acc s => (argLoop_sat acc s).1, fun acc s => (keyLoop_sat acc s).1,
+   fun s => (parseType_sat s).1, fun m s => (parseConst_sat m s).1⟩
+
 /-! ## D6: `optional byte` without default is rejected as found -/
 
 theorem C16_typeDef_counterexample :
@@ -167,9 +180,9 @@ well-formed program of the grammar in every layout.
 `#include` (outside the model); (2) names are unqualified identifiers of letters, digits, `_` (the
 lexer also admits `-` inside names and `a::b`); numeric literals are decimal (the lexer also admits
 hex/octal) — both only restrict `renderOK`, `C16_accepts_tokens` has no such restriction;
-(3) `/* */` comments without `*` inside; (4) the statement stops after syntax analysis: name
-resolution (`analyze`) and the generator conditions (`genCheck`) are evaluated per program by the
-harness, and for the witnesses above by `decide`. -/
+(3) `/* */` comments without `*` inside; (4) the statement stops after syntax analysis; name
+resolution (`analyze`) and the generator conditions (`genCheck`) are added by
+`C16_tool_accepts_partial`. -/
 theorem C16_accepts_grammar_partial (v : Variant) (p : Prog) (lead : Sep) (seps : List Sep)
     (hwf : p.WF = true) (hlen : seps.length = p.toks.length)
     (hlead : lead.all Trivia.WF = true) (hr : renderOK (p.toks.zip seps) = true) :
@@ -177,6 +190,34 @@ theorem C16_accepts_grammar_partial (v : Variant) (p : Prog) (lead : Sep) (seps 
   unfold Prog.render
   rw [tokens_render lead hlead _ hr, List.map_fst_zip (Nat.le_of_eq hlen.symm)]
   exact parseTokens_accept v p hwf
+
+/-- **Acceptance by the whole tool model** (`NewParse` + the generator's acceptance conditions): a
+well-formed program of the grammar that also satisfies the semantic side conditions of the
+language — named types are unqualified names of structs/enums of the module, defaults by name are
+enumerators of exactly one enum, `= earlierName` enumerators are found by `genEnum`'s scan — is
+accepted in every layout, by every variant that has the D6 repair (the D5 switch does not matter
+for valid programs); the enums and the struct names of the result are the declared ones.
+`_partial` for the same reasons as `C16_accepts_grammar_partial` (1)–(3).  On the unrepaired
+`genEnum`/`checkDepTName`/`analyzeDefault` the same statement holds with the respective switch off
+— but then `semOK` (as found) rejects lower-case enumerator references, and the emitted text no longer
+compiles for lower-case enum names in defaults and for named types inside arrays: those are the
+boundaries `C16_enumRef_counterexample`, `C16_enumDefault_counterexample`,
+`C16_arrayDepend_counterexample`. -/
+theorem C16_tool_accepts_partial (v : Variant) (hv : v.typeDefByte = true) (p : Prog) (lead : Sep)
+    (seps : List Sep) (hwf : p.WF = true) (hlen : seps.length = p.toks.length)
+    (hlead : lead.all Trivia.WF = true) (hr : renderOK (p.toks.zip seps) = true)
+    (hsem : semOK v p.ast = true) :
+    ∃ f, tool v (p.render lead seps) = .ok f ∧ f.module.enums = p.ast.module.enums ∧
+      f.module.structs.map (·.name) = p.ast.module.structs.map (·.name) := by
+  obtain ⟨f, hf, he, hn⟩ := analyze_ok v p.ast hsem
+  refine ⟨f, ?_, he, hn⟩
+  unfold tool parseFile
+  rw [C16_accepts_grammar_partial v p lead seps hwf hlen hlead hr]
+  simp only [Res.bind_ok]
+  rw [hf]
+  simp only [Res.bind_ok]
+  rw [genCheck_ok v hv p.ast f hsem he]
+  rfl
 
 /-! ### non-vacuity: a concrete program with every declaration kind -/
 
@@ -208,6 +249,7 @@ example : renderOK (exampleProg.toks.zip exampleSeps) = true := by decide +kerne
 example : parseTokens .repaired (tokens (exampleProg.render [.blank 10] exampleSeps)) = .ok exampleProg.ast :=
   C16_accepts_grammar_partial .repaired exampleProg [.blank 10] exampleSeps (by decide +kernel)
     (by decide +kernel) (by decide +kernel) (by decide +kernel)
+example : semOK .repaired exampleProg.ast = true := by decide +kernel
 /-- the example goes through name resolution and the generator conditions, too -/
 example : (match tool .repaired (exampleProg.render [.blank 10] exampleSeps) with
     | .ok _ => true | _ => false) = true := by decide +kernel
